@@ -115,6 +115,17 @@ impl Semaphore {
 #[verifier::external_body]
 pub async fn acquire_many_owned(ctx: &Ctx, s: Arc<Semaphore>, n: u32) -> (r: Result<OwnedSemaphorePermit, Canceled>)
     ensures r matches Ok(p) ==> p.n() == n && p.of() == s.id() { unimplemented!() }
+// W-ghost: the size-permit acquisition of the DATA split loop also counts the bytes this iteration has paid for ...
+#[verifier::external_body]
+pub async fn acquire_many_owned_size(ctx: &Ctx, s: Arc<Semaphore>, n: u32, held: &mut Ghost<int>) -> (r: Result<OwnedSemaphorePermit, Canceled>)
+    ensures r matches Ok(p) ==> p.n() == n && p.of() == s.id() && final(held)@ == old(held)@ + n,
+            r.is_err() ==> final(held)@ == old(held)@ { unimplemented!() }
+// ... and a receive buffer may be allocated (and filled from the transport) only for bytes that are already paid for: "never buffers more
+// than its configured limits no matter how fast the peer sends"
+pub fn buffer_new_held(n: usize, held: &Ghost<int>) -> (r: Buffer)
+    requires n <= held@,
+    ensures r.wf(), r.begin == 0, r.end == 0, r.total() == n,      // = Buffer::new's own postcondition
+{ Buffer::new(n) }
 #[verifier::external_body]
 pub async fn io_read_exact_2(ctx: &Ctx, r: &mut Reader, buf: &mut [u8; 2]) -> (res: Result<Result<(), IoError>, Canceled>) { unimplemented!() }
 #[verifier::external_body]
@@ -159,10 +170,12 @@ def add_dispatch(U):
                ("io::read_exact(ctx, &mut read, &mut header)", "io_read_exact_2(ctx, &mut read, &mut header)   /* R-std */"),
                ("io::read_exact(ctx, &mut read, &mut length)", "io_read_exact_2(ctx, &mut read, &mut length)   /* R-std */"),
                ("io::read_exact(ctx, &mut read, data.as_mut_capacity())", "io_read_exact(ctx, &mut read, data.as_mut_capacity())"),
+               ("while length > 0 {", "while length > 0 { let mut verif_held: Ghost<int> = Ghost(0);   /* W-ghost: bytes paid for in this iteration */"),
+               ("sync::acquire_many_owned(ctx, size_sem.clone(), $N)", "acquire_many_owned_size(ctx, size_sem.clone(), $N, &mut verif_held)   /* W-ghost */"),
                ("sync::acquire_many_owned(", "acquire_many_owned(", None),
                ("u16::from_le_bytes(length)", "verif_u16_from_le(length)   /* R-std */"),
                ("std::cmp::min(", "verif_min_usize("),
-               ("bytes::Buffer::new(", "Buffer::new("),
+               ("bytes::Buffer::new($N)", "buffer_new_held($N, &verif_held)   /* W-ghost */"),
                ("stream.send(Frame {\n                        header,\n                        data: None,\n                        _permit: permit,\n                    });",
                 "stream.send(Frame {\n                        header,\n                        data: None,\n                        _permit: permit,\n                    }, Ghost(verif_cs), Ghost(verif_ss));   /* W-ghost */"),
                ("stream.send(Frame {\n                            header,\n                            data: Some(data),\n                            _permit: permit,\n                        });",
@@ -225,9 +238,11 @@ impl WriteSender {
 }
 impl WriteSlot {
     // an outgoing DATA frame carries at most write_frame_size bytes and names this stream
+    // W-ghost `sent`: the bytes handed to the writer task as DATA frames so far grow by exactly this frame's payload
     #[verifier::external_body]
-    pub fn send(self, c: WriteCommand, Ghost(max): Ghost<int>)
+    pub fn send(self, c: WriteCommand, Ghost(max): Ghost<int>, sent: &mut Ghost<Seq<u8>>)
         requires c matches WriteCommand::Frame(f) ==> (f.data.is_some() ==> f.data.unwrap().wf() && f.data.unwrap().content().len() <= max)
+        ensures final(sent)@ == old(sent)@ + (match c { WriteCommand::Frame(f) => (if f.data.is_some() { f.data.unwrap().content() } else { Seq::<u8>::empty() }), _ => Seq::<u8>::empty() }),
     { unimplemented!() }
 }
 impl ReadReusableStream {
@@ -335,9 +350,8 @@ impl FrameReceiver {
     U.fn(F_R, "impl WriteReusableStream :: fn send_data", wrap="impl WriteReusableStream", ret="r", props=["C14"],
          header_subs=[("ctx::Ctx", "Ctx")],
          subs=[("std::mem::replace(", "core::mem::replace("), ("bytes::Buffer::new(", "Buffer::new(", None),
-               ("slot.send(WriteCommand::Frame(frame));", "slot.send(WriteCommand::Frame(frame), Ghost(self.cfg.write_frame_size as int)); "
-                "proof { self.verif_sent = Ghost(self.verif_sent@ + verif_out); }   /* W-ghost */"),
-               ("let header = Header::new(FrameKind::DATA,", "let ghost verif_out = self.buffer.content();   /* W-ghost */\n        let header = Header::new(FrameKind::DATA,")],
+               # (no statement of the function is an anchor: the ghost accounting rides on the call itself, wherever it stands)
+               (".send(WriteCommand::Frame(frame))", ".send(WriteCommand::Frame(frame), Ghost(self.cfg.write_frame_size as int), &mut self.verif_sent)   /* W-ghost */")],
          spec="""
     requires old(self).wf(),
     ensures final(self).wf(), final(self).cfg == old(self).cfg,
